@@ -1,9 +1,406 @@
-// Package c12: check for property C12 (stub until implemented).
+// Package c12: proofs are bound to session, statement, prover; not malleable (ENUM).
+//
+// For one accepted proof per proof system and parameter set the check enumerates transcript
+// transformations (single-component perturbations at every index, replaced statement components,
+// session variants, commitment/response shifts that satisfy every verification equation under the
+// original challenge) and requires the library's verifier to reject every one of them.
+// Oracle: "accepted" is the only alarm; perturbations that give a value equivalent in the component's
+// group are skipped (counted), a panic inside a verifier is recorded under the c06-overlap/ prefix.
 package c12
 
-import "verif/internal/core"
+import (
+	"crypto/elliptic"
+	"fmt"
+	"math/big"
+	"regexp"
+	"runtime"
+	"sync/atomic"
+
+	"github.com/bnb-chain/tss-lib/v2/crypto"
+
+	"verif/checks/c10"
+	"verif/internal/core"
+)
 
 // Implemented reports whether this check is built.
-const Implemented = false
+const Implemented = true
 
-func Run(r *core.Run) { r.Cap("not implemented") }
+var (
+	big0 = big.NewInt(0)
+	big1 = big.NewInt(1)
+	big2 = big.NewInt(2)
+)
+
+// tr is a flat transcript: proof parts in wire order, statement components, session.
+type tr struct {
+	proof   []*big.Int
+	stmt    []*big.Int
+	session []byte
+}
+
+func (t *tr) clone() *tr {
+	n := &tr{proof: make([]*big.Int, len(t.proof)), stmt: make([]*big.Int, len(t.stmt)), session: append([]byte{}, t.session...)}
+	for i, v := range t.proof {
+		n.proof[i] = new(big.Int).Set(v)
+	}
+	for i, v := range t.stmt {
+		n.stmt[i] = new(big.Int).Set(v)
+	}
+	return n
+}
+
+// pointRef names an elliptic-curve point stored as two consecutive components.
+type pointRef struct {
+	name   string
+	inStmt bool
+	xi     int
+	ec     elliptic.Curve
+}
+
+type shiftCase struct {
+	name string
+	t    *tr
+	e    *big.Int // the challenge under which the shifted transcript satisfies every equation
+}
+
+type sysInst struct {
+	name, where string
+	hasSession  bool
+	pNames      []string
+	sNames      []string
+	pEq         []*big.Int       // equivalence modulus of each proof component (nil: equality of integers)
+	pBound      []*big.Int       // bound below which the generic replacement is drawn
+	pGen        map[int]*big.Int // explicit generic replacement for a component (overrides pBound)
+	sOther      []*big.Int       // "other party's value" for each statement component (nil: none)
+	base        *tr
+	verify      func(*tr) bool // wire parse + library Verify; a parse error is a rejection
+	idx         []int          // proof component indices to perturb in this tier
+	points      []pointRef
+	shifts      func() []shiftCase
+	consistent  func(t *tr, e *big.Int) bool // reference: all verification equations hold under challenge e
+	ssid        []byte
+	extra       func(c *checker, s *sysInst) // system specific informational probes
+}
+
+type checker struct {
+	r     *core.Run
+	jobs  []func()
+	evals int64
+}
+
+var idxRe = regexp.MustCompile(`\[\d+\]`)
+
+func keyName(n string) string { return idxRe.ReplaceAllString(n, "[i]") }
+
+func hx(v *big.Int) string {
+	if v == nil {
+		return "nil"
+	}
+	return v.Text(16)
+}
+
+// try runs the verifier on one transformed transcript.
+func (c *checker) try(s *sysInst, kind, comp, pert string, t *tr, rec map[string]interface{}) {
+	c.tryPre(s, kind, comp, pert, t, rec, nil)
+}
+
+// tryPre: pre (optional) decides inside the job whether the case is meaningful; false = not executed.
+func (c *checker) tryPre(s *sysInst, kind, comp, pert string, t *tr, rec map[string]interface{}, pre func() bool) {
+	canon := fmt.Sprintf("%s|%s|%s|%s|%s", s.name, s.where, kind, comp, pert)
+	key := fmt.Sprintf("%s/%s/%s/%s", s.name, kind, keyName(comp), pert)
+	c.jobs = append(c.jobs, func() {
+		if pre != nil && !pre() {
+			return
+		}
+		atomic.AddInt64(&c.evals, 1)
+		c.r.Distinct("cases", canon)
+		c.r.Count("cases_"+s.name, 1)
+		c.r.Count("kind_"+kind, 1)
+		var ok bool
+		pan, hung := c10.Guard(func() { ok = s.verify(t) })
+		if rec == nil {
+			rec = map[string]interface{}{}
+		}
+		rec["case"] = canon
+		switch {
+		case hung:
+			c.r.Distinct("outcomes", s.name+"/"+kind+"/hang")
+			c.r.Violate("c06-overlap/c12/"+key+":hang", "verifier did not return within 240 s on a transformed transcript", rec)
+		case pan != nil:
+			rec["panic"] = fmt.Sprint(pan)
+			c.r.Distinct("outcomes", s.name+"/"+kind+"/panic")
+			c.r.Violate("c06-overlap/c12/"+key+":panic", "verifier panicked on a transformed transcript: "+fmt.Sprint(pan), rec)
+		case ok:
+			c.r.Distinct("outcomes", s.name+"/"+kind+"/accepted")
+			c.r.Violate(key+"/accepted", "verifier accepted a transformed transcript ("+kind+" "+comp+" "+pert+")", rec)
+		default:
+			c.r.Distinct("outcomes", s.name+"/"+kind+"/rejected")
+			c.r.Sample(9, rec)
+		}
+	})
+}
+
+func (s *sysInst) generic(i int) *big.Int {
+	if g, ok := s.pGen[i]; ok {
+		return g
+	}
+	return c10.Generic("c12/"+s.name+"/"+s.where+"/"+s.pNames[i], s.pBound[i])
+}
+
+func equivalent(a, b, mod *big.Int) bool {
+	if mod == nil {
+		return a.Cmp(b) == 0
+	}
+	return new(big.Int).Mod(new(big.Int).Sub(a, b), mod).Sign() == 0
+}
+
+func (c *checker) skip(why string) { c.r.Count("skipped_"+why, 1) }
+
+// perturbProof enumerates {+1, -1, generic, swap with right neighbour, 0} on the selected proof components.
+func (c *checker) perturbProof(s *sysInst) {
+	for _, i := range s.idx {
+		v := s.base.proof[i]
+		name := s.pNames[i]
+		cands := []struct {
+			p string
+			v *big.Int
+		}{
+			{"+1", new(big.Int).Add(v, big1)},
+			{"-1", new(big.Int).Sub(v, big1)},
+			{"generic", s.generic(i)},
+			{"0", big.NewInt(0)},
+		}
+		for _, cd := range cands {
+			if cd.v.Sign() < 0 {
+				c.skip("negative_not_encodable")
+				continue
+			}
+			if equivalent(cd.v, v, s.pEq[i]) {
+				c.skip("equivalent_value")
+				continue
+			}
+			t := s.base.clone()
+			t.proof[i] = cd.v
+			c.try(s, "component", name, cd.p, t, map[string]interface{}{"index": i, "old": hx(v), "new": hx(cd.v)})
+		}
+		if i+1 < len(s.base.proof) {
+			w := s.base.proof[i+1]
+			if equivalent(v, w, s.pEq[i]) && equivalent(v, w, s.pEq[i+1]) {
+				c.skip("equivalent_value")
+			} else {
+				t := s.base.clone()
+				t.proof[i], t.proof[i+1] = t.proof[i+1], t.proof[i]
+				c.try(s, "component", name, "swap-right", t, map[string]interface{}{"index": i, "with": s.pNames[i+1]})
+			}
+		}
+	}
+}
+
+func getPoint(t *tr, p pointRef) *crypto.ECPoint {
+	src := t.proof
+	if p.inStmt {
+		src = t.stmt
+	}
+	return crypto.NewECPointNoCurveCheck(p.ec, src[p.xi], src[p.xi+1])
+}
+
+func setPoint(t *tr, p pointRef, pt *crypto.ECPoint) {
+	dst := t.proof
+	if p.inStmt {
+		dst = t.stmt
+	}
+	dst[p.xi], dst[p.xi+1] = pt.X(), pt.Y()
+}
+
+// perturbPoints replaces each point by other valid curve points (these get past the parser, unlike coordinate edits).
+func (c *checker) perturbPoints(s *sysInst) {
+	for _, p := range s.points {
+		base := getPoint(s.base, p)
+		G := c10.MulG(p.ec, big1)
+		q := p.ec.Params().N
+		cands := []struct {
+			n  string
+			pt *crypto.ECPoint
+		}{
+			{"+G", c10.AddP(base, G)},
+			{"-G", c10.AddP(base, c10.NegP(G))},
+			{"negated", c10.NegP(base)},
+			{"doubled", c10.MulP(base, big2)},
+			{"generic-point", c10.MulG(p.ec, c10.Generic("c12/point/"+s.name+"/"+p.name, q))},
+			{"G", G},
+		}
+		kind := "point"
+		if p.inStmt {
+			kind = "statement-point"
+		}
+		for _, cd := range cands {
+			if !cd.pt.IsOnCurve() || cd.pt.Equals(base) {
+				c.skip("equivalent_value")
+				continue
+			}
+			t := s.base.clone()
+			setPoint(t, p, cd.pt)
+			c.try(s, kind, p.name, cd.n, t, map[string]interface{}{"x": hx(cd.pt.X()), "y": hx(cd.pt.Y())})
+		}
+	}
+}
+
+func (c *checker) perturbStatement(s *sysInst) {
+	for i, v := range s.base.stmt {
+		t := s.base.clone()
+		t.stmt[i] = new(big.Int).Add(v, big1)
+		c.try(s, "statement", s.sNames[i], "+1", t, map[string]interface{}{"old": hx(v)})
+		if s.sOther != nil && s.sOther[i] != nil && s.sOther[i].Cmp(v) != 0 {
+			t := s.base.clone()
+			t.stmt[i] = new(big.Int).Set(s.sOther[i])
+			c.try(s, "statement", s.sNames[i], "other-party", t, map[string]interface{}{"old": hx(v), "new": hx(s.sOther[i])})
+		}
+	}
+}
+
+// baseSession is ssid || index (index 1), as ContextI is built in the rounds.
+func baseSession(ssid []byte) []byte {
+	return append(append([]byte{}, ssid...), big.NewInt(1).Bytes()...)
+}
+
+func (c *checker) sessions(s *sysInst) {
+	if !s.hasSession {
+		return
+	}
+	b := s.base.session
+	flipFirst := append([]byte{}, b...)
+	flipFirst[0] ^= 0x01
+	flipLast := append([]byte{}, b...)
+	flipLast[len(b)-1] ^= 0x80
+	other := baseSession(core.Bytes("c12/other-ssid", len(s.ssid)))
+	vars := []struct {
+		n string
+		b []byte
+	}{
+		{"other-index", append(append([]byte{}, s.ssid...), big.NewInt(2).Bytes()...)},
+		{"index0-no-suffix", append([]byte{}, s.ssid...)}, // big.NewInt(0).Bytes() is empty: party 0's context is the bare ssid
+		{"index-appended", append(append([]byte{}, b...), big.NewInt(2).Bytes()...)},
+		{"zero-byte-appended", append(append([]byte{}, b...), 0)},
+		{"empty", []byte{}},
+		{"nil", nil},
+		{"prefix-half", append([]byte{}, b[:len(b)/2]...)},
+		{"bit-flipped-first", flipFirst},
+		{"bit-flipped-last", flipLast},
+		{"other-ssid", other},
+	}
+	for _, v := range vars {
+		t := s.base.clone()
+		t.session = v.b
+		c.try(s, "session", "session", v.n, t, map[string]interface{}{"session_hex": fmt.Sprintf("%x", v.b)})
+	}
+}
+
+func (c *checker) doShifts(s *sysInst) {
+	if s.shifts == nil {
+		return
+	}
+	for _, sc := range s.shifts() {
+		sc := sc
+		var pre func() bool
+		if s.consistent != nil {
+			pre = func() bool {
+				if !s.consistent(sc.t, sc.e) {
+					// the harness' algebra is wrong, or this challenge candidate is not the prover's: such a transcript proves nothing
+					c.r.Count("shift_not_consistent_under_original_challenge", 1)
+					c.r.Distinct("inconsistent_shifts", s.name+"/"+keyName(sc.name))
+					return false
+				}
+				c.r.Count("shift_consistent_under_original_challenge", 1)
+				return true
+			}
+		}
+		c.tryPre(s, "shift", sc.name, "consistent-except-challenge", sc.t, nil, pre)
+	}
+}
+
+func (c *checker) system(s *sysInst) {
+	// the untouched transcript must be accepted, and must satisfy the reference equations
+	ok := false
+	pan, hung := c10.Guard(func() { ok = s.verify(s.base) })
+	if pan != nil || hung || !ok {
+		c.r.Cap(fmt.Sprintf("%s %s: baseline proof not accepted (panic=%v hang=%v) - completeness is C10's business; nothing enumerated for it", s.name, s.where, pan, hung))
+		return
+	}
+	c.r.Count("baselines_accepted", 1)
+	c.perturbProof(s)
+	c.perturbPoints(s)
+	c.perturbStatement(s)
+	c.sessions(s)
+	c.doShifts(s)
+	if s.extra != nil {
+		s.extra(c, s)
+	}
+}
+
+// pick returns the indices of a repeated part to perturb: all (thorough) or first/middle/last (quick).
+func pick(tier string, start, n int) []int {
+	if tier == "thorough" {
+		out := make([]int, n)
+		for i := range out {
+			out[i] = start + i
+		}
+		return out
+	}
+	return []int{start, start + n/2, start + n - 1}
+}
+
+func seq(n int) []int {
+	out := make([]int, n)
+	for i := range out {
+		out[i] = i
+	}
+	return out
+}
+
+func repeatInt(v *big.Int, n int) []*big.Int {
+	out := make([]*big.Int, n)
+	for i := range out {
+		out[i] = v
+	}
+	return out
+}
+
+func Run(r *core.Run) {
+	ps := c10.LoadParams()
+	c := &checker{r: r}
+	ssid := core.Bytes("c12/ssid", 32)
+
+	var systems []*sysInst
+	systems = append(systems, schnorrSystems(ssid)...)
+	systems = append(systems, rsaSystems(r.Tier, ps, ssid)...)
+	systems = append(systems, mtaSystems(r.Tier, ps, ssid)...)
+
+	// building the jobs verifies each baseline (cheap) and is done in parallel per system
+	perSys := make([]*checker, len(systems))
+	core.ParallelFor(len(systems), runtime.NumCPU(), func(i int) {
+		cc := &checker{r: r}
+		cc.system(systems[i])
+		perSys[i] = cc
+	})
+	for _, cc := range perSys {
+		c.jobs = append(c.jobs, cc.jobs...)
+	}
+	core.ParallelFor(len(c.jobs), runtime.NumCPU(), func(i int) { c.jobs[i]() })
+	evals := 0
+	for _, cc := range perSys {
+		evals += int(atomic.LoadInt64(&cc.evals))
+	}
+	evals += int(atomic.LoadInt64(&c.evals))
+
+	r.Set("evaluations", int(r.Get("kind_component")+r.Get("kind_point")+r.Get("kind_statement")+r.Get("kind_statement-point")+r.Get("kind_session")+r.Get("kind_shift")))
+	r.Set("evaluations_counted_in_jobs", evals)
+	r.Set("distinct_nontrivial", r.NDistinct("cases"))
+	r.Set("systems_instances", len(systems))
+	r.Set("rule", "one case = (proof system, parameter set(s), kind in {component, point, statement, statement-point, session, shift}, component name incl. index, "+
+		"perturbation); the transformed transcript goes through the wire parser and the library Verify; distinct = distinct canonical case strings; a perturbation whose "+
+		"result is equivalent to the original in the component's group, or negative (not encodable), is skipped and counted under skipped_*; every counted case differs "+
+		"from the accepted transcript in a non-equivalent way, so all are non-trivial; shifts are first checked against reference equations under the original challenge")
+	r.Assume("session binding is asserted for Schnorr, Schnorr-V, mod, fac, Bob, Bob-WC only; dln, Alice's range proof and the Paillier key proof take no session in this code base")
+	r.Assume("the challenge used by statement-side shifts is recovered by replaying the prover's first mask from the deterministic stream and, independently, recomputed from the documented hash inputs; both candidates are tried")
+	r.Assume("coordinate edits of curve points are judged through the message layer's parser (NewECPoint); on-curve replacement points are used to reach the verifier")
+}
